@@ -61,8 +61,11 @@ t_COLON = r':'
 
 def t_NEWLINE(t):
     r"""\r\n|\n|;"""
-    if t.value == ';' or t.lexer.paren_count == 0:
+    if t.value != ';':
+        # every physical line break counts, also inside of parens, braces and brackets
         t.lexer.lineno += 1
+
+    if t.value == ';' or t.lexer.paren_count == 0:
         return t
     else:
         # ignore newlines inside of parens, braces and brackets
